@@ -160,6 +160,9 @@ type runner struct {
 	fail       *finding
 	mm         *finding
 
+	feMode bool       // kernel-facing calls go through a front end (FUSE or NFSv4.0)
+	fe     *frontEnds // set once the first root exists
+
 	park *parkState // a listing is running concurrently (concurrent-listing mode)
 	rec  *[]lineRec // when set: one record per applied line
 }
@@ -1032,10 +1035,11 @@ func (r *runner) apply1(line string) {
 		return
 	}
 	if f[0] == "config" {
-		if r.configured || len(f) != 3 {
+		if r.configured || (len(f) != 3 && len(f) != 4) {
 			r.skip()
 			return
 		}
+		r.feMode = len(f) == 4 && f[3] == "1"
 		r.configure(f[1] == "1", f[2] == "1")
 		return
 	}
@@ -1079,6 +1083,11 @@ func (r *runner) apply1(line string) {
 	std := func(modelLine string, impl func() implOut, ref func() rout) {
 		pre = r.snapshot()
 		o = protect(impl)
+		if o.status == "front-end-disagrees" { // recorded by disagree(); nothing sensible to compare
+			r.dead = true
+			ro = rout{status: o.status}
+			return
+		}
 		if o.status != "panic" {
 			r.checkLocks(line)
 		}
@@ -1129,6 +1138,10 @@ func (r *runner) apply1(line string) {
 			r.bindModelDir(len(r.mDirs), root)
 		}
 		r.bindRefDir(r.ref.newDir(fs, r.ref.empty), root)
+		if r.feMode && r.fe == nil {
+			r.setupFrontEnds(root)
+			r.flags["front-end-"+r.fe.kind] = true
+		}
 		r.steps++
 
 	case "newleaf":
@@ -1189,6 +1202,9 @@ func (r *runner) apply1(line string) {
 
 	case "mkdir":
 		std(line, func() implOut {
+			if o, ok := r.feMkdir(line, d, rd, n); ok {
+				return o
+			}
 			var out virtual.Attributes
 			c, ci, s := dirOf(d).VirtualMkdir(ctx, comp(n), &virtual.Attributes{}, mask, &out)
 			if s != virtual.StatusOK {
@@ -1197,7 +1213,7 @@ func (r *runner) apply1(line string) {
 			return implOut{status: "ok", hasChild: true, child: c, childIsDir: true, ci: [][2]uint64{{ci.Before, ci.After}}}
 		}, func() rout { return r.ref.mkdir(rd, n) })
 		checkChild()
-		if r.fail == nil && o.status == "ok" {
+		if r.fail == nil && o.status == "ok" && len(o.ci) > 0 {
 			r.checkChangeInfo(line, d, o.ci[0], pre)
 		}
 		finish()
@@ -1209,6 +1225,9 @@ func (r *runner) apply1(line string) {
 			return
 		}
 		std(line, func() implOut {
+			if o, ok := r.feMknod(line, d, rd, n, k); ok {
+				return o
+			}
 			var out virtual.Attributes
 			attr := &virtual.Attributes{}
 			switch k {
@@ -1230,7 +1249,7 @@ func (r *runner) apply1(line string) {
 			return implOut{status: "ok", hasChild: true, child: c, ci: [][2]uint64{{ci.Before, ci.After}}}
 		}, func() rout { return r.ref.mknod(rd, n, k) })
 		checkChild()
-		if r.fail == nil && o.status == "ok" {
+		if r.fail == nil && o.status == "ok" && len(o.ci) > 0 {
 			r.checkChangeInfo(line, d, o.ci[0], pre)
 		}
 		finish()
@@ -1242,6 +1261,9 @@ func (r *runner) apply1(line string) {
 			return
 		}
 		std(line, func() implOut {
+			if o, ok := r.feOpen(line, d, rd, n, create, existing); ok {
+				return o
+			}
 			var out virtual.Attributes
 			var ca *virtual.Attributes
 			var eo *virtual.OpenExistingOptions
@@ -1259,7 +1281,7 @@ func (r *runner) apply1(line string) {
 			return implOut{status: "ok", hasChild: true, child: l, ci: [][2]uint64{{ci.Before, ci.After}}}
 		}, func() rout { return r.ref.open(rd, n, create, existing) })
 		checkChild()
-		if r.fail == nil && o.status == "ok" {
+		if r.fail == nil && o.status == "ok" && len(o.ci) > 0 {
 			r.checkChangeInfo(line, d, o.ci[0], pre)
 		}
 		finish()
@@ -1275,6 +1297,9 @@ func (r *runner) apply1(line string) {
 			return
 		}
 		std(line, func() implOut {
+			if o, ok := r.feLink(line, d, rd, n, l, rl); ok {
+				return o
+			}
 			var out virtual.Attributes
 			ci, s := dirOf(d).VirtualLink(ctx, comp(n), l.(virtual.Leaf), mask, &out)
 			if s != virtual.StatusOK {
@@ -1282,14 +1307,19 @@ func (r *runner) apply1(line string) {
 			}
 			return implOut{status: "ok", ci: [][2]uint64{{ci.Before, ci.After}}}
 		}, func() rout { return r.ref.link(rd, n, rl) })
-		if r.fail == nil && o.status == "ok" {
+		if r.fail == nil && o.status == "ok" && len(o.ci) > 0 {
 			r.checkChangeInfo(line, d, o.ci[0], pre)
+		}
+		if o.status == "ok" {
 			r.flags["hardlink"] = true
 		}
 		finish()
 
 	case "lookup":
 		std(line, func() implOut {
+			if o, ok := r.feLookup(line, d, rd, n); ok {
+				return o
+			}
 			var out virtual.Attributes
 			c, s := dirOf(d).VirtualLookup(ctx, comp(n), mask, &out)
 			if s != virtual.StatusOK {
@@ -1321,6 +1351,9 @@ func (r *runner) apply1(line string) {
 			return
 		}
 		std(line, func() implOut {
+			if o, ok := r.feReaddir(line, d, rd, c, k); ok {
+				return o
+			}
 			rp := &reporter{k: k}
 			if s := dirOf(d).VirtualReadDir(ctx, uint64(c), mask, rp); s != virtual.StatusOK {
 				return implOut{status: statusName(s)}
@@ -1348,15 +1381,20 @@ func (r *runner) apply1(line string) {
 			return
 		}
 		std(line, func() implOut {
+			if o, ok := r.feRename(line, d, rd, n, d2, rd2, n2); ok {
+				return o
+			}
 			ci1, ci2, s := dirOf(d).VirtualRename(ctx, comp(n), dirOf(d2), comp(n2))
 			if s != virtual.StatusOK {
 				return implOut{status: statusName(s)}
 			}
 			return implOut{status: "ok", ci: [][2]uint64{{ci1.Before, ci1.After}, {ci2.Before, ci2.After}}}
 		}, func() rout { return r.ref.rename(rd, n, rd2, n2) })
-		if r.fail == nil && o.status == "ok" {
+		if r.fail == nil && o.status == "ok" && len(o.ci) == 2 {
 			r.checkChangeInfo(line, d, o.ci[0], pre)
 			r.checkChangeInfo(line, d2, o.ci[1], pre)
+		}
+		if o.status == "ok" {
 			r.flags["rename"] = true
 		}
 		if !r.cycle && r.ref.hasCycle() {
@@ -1368,14 +1406,19 @@ func (r *runner) apply1(line string) {
 	case "vremove":
 		a, b := arg(3) == 1, arg(4) == 1
 		std(line, func() implOut {
+			if o, ok := r.feRemove(line, d, rd, n, a, b); ok {
+				return o
+			}
 			ci, s := dirOf(d).VirtualRemove(ctx, comp(n), a, b)
 			if s != virtual.StatusOK {
 				return implOut{status: statusName(s)}
 			}
 			return implOut{status: "ok", ci: [][2]uint64{{ci.Before, ci.After}}}
 		}, func() rout { return r.ref.vremove(rd, n, a, b) })
-		if r.fail == nil && o.status == "ok" {
+		if r.fail == nil && o.status == "ok" && len(o.ci) > 0 {
 			r.checkChangeInfo(line, d, o.ci[0], pre)
+		}
+		if o.status == "ok" {
 			r.flags["remove"] = true
 		}
 		finish()
@@ -2691,12 +2734,15 @@ func shrinkIDs(lines []string, try func([]string) (bool, []lineRec)) []string {
 	return cur
 }
 
+// feShare/12 of the histories issue their kernel-facing calls through a front end.
+var feShare = 3
+
 func generate(rnd *hx.Rand, drv *hx.Driver, seed uint64, n int) ([]string, outcome) {
 	heartbeat("", true)
 	r := newRunner(drv)
 	r.seed = seed
 	g := &generator{rnd: rnd, r: r, roots: 1, concurrent: rnd.Chance(1, 4)}
-	lines := []string{fmt.Sprintf("config %d %d", b2i(rnd.Chance(1, 2)), b2i(rnd.Chance(1, 2))), "newroot 0"}
+	lines := []string{fmt.Sprintf("config %d %d %d", b2i(rnd.Chance(1, 2)), b2i(rnd.Chance(1, 2)), b2i(rnd.Chance(feShare, 12))), "newroot 0"}
 	for _, l := range lines {
 		r.apply(l)
 	}
@@ -2736,7 +2782,9 @@ func main() {
 		"RemoveAllChildren/CreateChildren(overwrite, lazy sub-directories)/CreateAndEnterPrepopulatedDirectory/FilterChildren/InstallHooks, paginated VirtualReadDir (page size 1-10, resumed from the "+
 		"last, an earlier or an arbitrary cookie) interleaved with the mutations, fetcher and allocator faults; in a quarter of the histories also listings that run concurrently with the mutations "+
 		"(clist/cjoin: a VirtualReadDir with a change-ID attribute mask in its own goroutine is parked on the lock of a lazy child directory whose InitialContentsFetcher blocks on a harness gate, the main goroutine renames/removes/creates entries meanwhile, "+
-		"then the gate opens; such interleavings inside one page are covered by the harness and the reference monitor only - the model is dropped for the rest of that history, its readdir theorems quantify over interleavings at page granularity); non-trivial = the history completed a listing that took more than one page, "+
+		"then the gate opens; in a quarter (quick) to 5/12 (thorough) of the histories the kernel-facing calls are issued through a front end instead of directly - FUSE requests built in-process against fuse.NewSimpleRawFileSystem "+
+		"(LOOKUP, MKDIR, MKNOD, SYMLINK, CREATE+RELEASE, LINK, RENAME, UNLINK, RMDIR, READDIR, READDIRPLUS) or NFSv4.0 COMPOUNDs against nfsv4.NewNFS40Program (PUTFH/SAVEFH, LOOKUP, CREATE, LINK, RENAME, REMOVE, READDIR, GETFH) - and the translated answers "+
+		"(errno/nfsstat4, node id/file handle -> object, offsets/cookies) go through the same model comparison and monitor; after every call C14's VerifLockIsFree is asked about every known directory; such interleavings inside one page are covered by the harness and the reference monitor only - the model is dropped for the rest of that history, its readdir theorems quantify over interleavings at page granularity); non-trivial = the history completed a listing that took more than one page, "+
 		"performed a successful rename, a successful remove and a bulk call; distinct = hash of the op list")
 	drv, err := hx.StartDriver("dir")
 	if err != nil {
@@ -2786,6 +2834,7 @@ func main() {
 	histories := 1500 * o.Scale
 	if o.Tier == "thorough" {
 		histories = 8000 * o.Scale
+		feShare = 5
 	}
 	rnd := hx.NewRand(o.Seed)
 	for h := 0; h < histories && len(res.Findings) == 0; h++ {
